@@ -29,9 +29,9 @@ ASSUMPTIONS = ["run 4 (eager binding) is not compared for bodies that declare an
 SHARDED = True
 OPTS = {"fuel": 6000, "depth": 60, "compact": True, "step_ms": 2000, "cap": 16}
 
-OUTER = 'y := 10; z := [1, 2]; f1 := \\a, b -> ["f1", a, b]; f2 := \\a, b -> ["f2", a, b]; f1::precedence = 2; f2::precedence = 3; max := \\a, b -> 99; '
-REASSIGN = 'y = 77; z = [7]; f1, f2 = f2, f1; f1::precedence = 9; max = \\a, b -> 11; '
-OUTER_NAMES = {"y", "z", "f1", "f2", "max"}
+OUTER = 'y := 10; z := [1, 2]; f1 := \\a, b -> ["f1", a, b]; f2 := \\a, b -> ["f2", a, b]; f1::precedence = 2; f2::precedence = 3; max := \\a, b -> 99; mn := (-9223372036854775807) - 1; '
+REASSIGN = 'y = 77; z = [7]; f1, f2 = f2, f1; f1::precedence = 9; max = \\a, b -> 11; mn = 3; '
+OUTER_NAMES = {"y", "z", "f1", "f2", "max", "mn"}
 BUILTIN_NAMES = set(R.BUILTINS) | {"print", "len"}
 ARGS = [("int", 1), ("list", [("int", 0), ("int", 2)])]
 
@@ -39,6 +39,8 @@ I = c05.I
 V = c05.V
 ATOMS = [I(0), I(1), I(-1), V("x"), V("y"), V("z"), V("w"), ("null",), ("break", 0, None), ("return", None), ("raw", "_"), ("raw", "[1, -2]"),
          ("raw", "(pop z)"), ("raw", "(swap z[0], z[1])"), ("raw", "(remove z[0])"),
+         # constant folding of unary minus at the machine-word boundary (a folded literal, an outer variable resolved at freeze time)
+         ("raw", "(-mn)"), ("raw", "(-(-9223372036854775808))"), ("raw", "[x, -(-9223372036854775807)]"),
          ("raw", "{1: y}"), ("raw", "(1 f1 2 f2 3)"), ("raw", "max(1, 2)"), ("raw", "(_ + 1)(x)"), ("raw", "(y - 1)"), ("raw", "(-y)")]
 
 
@@ -105,6 +107,7 @@ class Fail(Exception):
 
 
 RAW_INFO = {
+    "(-mn)": ("ok", {"mn"}, set()), "(-(-9223372036854775808))": ("ok", set(), set()), "[x, -(-9223372036854775807)]": ("ok", {"x"}, set()),
     "(pop z)": ("mutates", "z"), "(swap z[0], z[1])": ("mutates", "z"), "(remove z[0])": ("mutates", "z"),
     "_": ("fail",), "[1, -2]": ("ok", set(), set()), "{1: y}": ("ok", {"y"}, set()), "(1 f1 2 f2 3)": ("ok", {"f1", "f2"}, set()),
     "max(1, 2)": ("ok", {"max"}, set()), "(_ + 1)(x)": ("ok", {"x"}, set()), "(y - 1)": ("ok", {"y"}, set()), "(-y)": ("ok", {"y"}, set()),
